@@ -235,8 +235,8 @@ func coqScheds(ss []SchedObs) string {
 
 // CoqTerm prints the case and the observation as a Gallina term (empty: not sent to the model).
 func CoqTerm(c *Case, obs *RunObs) string {
-	if obs.CompileErr != "" || obs.Ref == nil || len(obs.Segs) == 0 {
-		return ""
+	if obs.CompileErr != "" || obs.Ref == nil || len(obs.Segs) == 0 || c.SetFailAt > 0 {
+		return "" // a failing store is not modelled: direct oracle only
 	}
 	gs := make([]string, len(c.Graphs))
 	for i := range c.Graphs {
